@@ -54,11 +54,21 @@ pub fn run_periodic3(out: &mut Out, rng: &mut Rng, thorough: bool) {
     for _ in 0..(if thorough { 100 } else { 24 }) {
         plan.push(("uniform", 3));
     }
+    // very uneven density (heuristics that assume a mean separation, pruning by distance): clumps, blobs with isolated generators, voids
+    for _ in 0..(if thorough { 12 } else { 3 }) {
+        plan.push(("clump", 3));
+        plan.push(("clump", 2));
+    }
+    for dim in [3usize, 2, 1] {
+        plan.push(("blob_isolated", dim));
+        plan.push(("void_shell", dim));
+    }
     {
         {
             for (fam, dim) in plan {
                 // implementation vs implementation: sizes are not limited by the exact oracle; n >= 7 gives the r-tree inner nodes
                 let n = match dim {
+                    _ if fam == "blob_isolated" || fam == "void_shell" => [0usize, 60, 120, 230][dim] + rng.below(60) as usize,
                     3 => 1 + rng.below(if thorough { 120 } else { 60 }) as usize,
                     2 => 1 + rng.below(if thorough { 200 } else { 60 }) as usize,
                     _ => 1 + rng.below(if thorough { 300 } else { 60 }) as usize,
